@@ -18,7 +18,9 @@ TrTok == /\ l <= NRec /\ Ev.ev = "tok"
          /\ Ev.res = "toolong" => \/ (Ev.nbytes > MaxLen /\ Ev.final = Ev.nbytes)      \* refused before any work
                                   \/ (Ev.nbytes <= MaxLen /\ Ev.final > ReallyMax)   \* refused on the rewritten length
          /\ Ev.res = "ok" => /\ Ev.touch = "ok"                             \* Touch: every accessor and the split API
-                             /\ Ev.tiles /\ Ev.covered = Ev.nbytes          \* not a truncated result
+                             /\ Ev.tiles
+                             /\ \/ Ev.covered = Ev.nbytes                  \* not a truncated result
+                                \/ Ev.final_known /\ Ev.final = 0 /\ Ev.n = 0  \* "only an input whose normalised form is empty yields no morphemes"
          /\ Ev.has_model => /\ Ev.res = Ev.expect
                             /\ (Ev.nbytes <= MaxLen /\ Ev.final_known) => Ev.final = Ev.mfinal
          /\ l' = l + 1
